@@ -311,6 +311,120 @@ Proof.
   apply andb_true_iff in E. destruct E as [_ E]. intros j Hj. apply I1; auto. apply summaries_full_spec; auto.
 Qed.
 
+
+(* ---------- recovery: from any state where init completed and finalise has not started,
+   running every partition to completion and then finalise yields exactly the reference store ---------- *)
+Definition ref : state := fun p =>
+  match p with
+  | PHeader | PFinalMeta => Full
+  | PData j k => if (j <? nparts) && (k <? nfiles j) then Full else Absent
+  | _ => Absent
+  end.
+Definition recover_history : list (cmd * option nat) :=
+  map (fun j => (Partition j (seq 0 (nfiles j)), None)) (seq 0 nparts)
+  ++ [(Finalise (PWipMeta :: map PSummary (seq 0 nparts)), None)].
+
+Definition recoverable (s : state) : Prop :=
+  s PWipMeta = Full /\ s PFinalMeta = Absent /\ s PHeader = Full /\
+  (forall j k, ~ (j < nparts /\ k < nfiles j) -> s (PData j k) = Absent) /\
+  (forall j, nparts <= j -> s (PSummary j) = Absent).
+
+Lemma partition_complete_effect s j : fixed = true -> recoverable s -> j < nparts ->
+  let s' := run1 s (Partition j (seq 0 (nfiles j)), None) in
+  recoverable s' /\ s' (PSummary j) = Full /\ part_complete s' j /\
+  (forall i, i <> j -> s' (PSummary i) = s (PSummary i)) /\
+  (forall i k, i <> j -> s' (PData i k) = s (PData i k)).
+Proof.
+  intros Hfix [Hw [Hf [Hh [Hd Hs]]]] Hj. unfold run1; simpl fst; simpl snd. unfold steps. rewrite Hfix, Hw, Hf.
+  assert (j <? nparts = true) as -> by (apply Nat.ltb_lt; auto). simpl andb. cbn [negb is_absent is_full andb].
+  set (U := if is_absent (s (PSummary j)) then [] else [Unlink (PSummary j)]).
+  set (D := flat_map (fun k0 => write (PData j k0)) (seq 0 (nfiles j))).
+  rewrite !exec_app.
+  set (sU := exec s U). set (sD := exec sU D).
+  assert (FU: forall p, p <> PSummary j -> sU p = s p).
+  { intros p Hp. unfold sU, U. destruct (is_absent (s (PSummary j))); unfold exec; simpl; auto. apply upd_other; auto. }
+  assert (FD: forall p, (forall k, p <> PData j k) -> sD p = sU p).
+  { intros p Hp. unfold sD. apply frame. intros st Hst. destruct (data_targets _ _ _ Hst) as [k ->]. auto. }
+  assert (DD: forall k, k < nfiles j -> sD (PData j k) = Full).
+  { intros k Hk. unfold sD, D. apply writes_full. left. apply in_seq. lia. }
+  assert (DO: forall k, nfiles j <= k -> sD (PData j k) = Absent).
+  { intros k Hk. unfold sD. rewrite frame.
+    - rewrite FU by congruence. apply Hd. lia.
+    - intros st Hst. unfold D in Hst. apply in_flat_map in Hst. destruct Hst as [k' [Hk' Hst]]. apply in_seq in Hk'.
+      simpl in Hst. destruct Hst as [<-|[<-|[]]]; simpl; intros E; inversion E; lia. }
+  unfold write, exec at 1. simpl fold_left.
+  set (s' := upd (upd sD (PSummary j) Torn) (PSummary j) Full).
+  assert (F': forall p, p <> PSummary j -> s' p = sD p) by (intros; unfold s'; rewrite !upd_other; auto).
+  split; [|split; [|split; [|split]]].
+  - split; [|split; [|split; [|split]]].
+    + rewrite F', FD, FU by congruence. auto.
+    + rewrite F', FD, FU by congruence. auto.
+    + rewrite F', FD, FU by congruence. auto.
+    + intros i k Hik. rewrite F' by congruence. destruct (Nat.eq_dec i j) as [->|Hij].
+      * apply DO. lia.
+      * rewrite FD, FU by congruence. auto.
+    + intros i Hi. rewrite F' by (intros E; inversion E; lia). rewrite FD, FU by (try congruence; intros E; inversion E; lia). auto.
+  - unfold s'. apply upd_same.
+  - intros k Hk. rewrite F' by congruence. apply DD; auto.
+  - intros i Hij. rewrite F' by congruence. rewrite FD, FU by congruence. reflexivity.
+  - intros i k Hij. rewrite F' by congruence. rewrite FD, FU by congruence. reflexivity.
+Qed.
+
+Theorem rerun_recovers : fixed = true -> forall s, recoverable s -> forall p, run s recover_history p = ref p.
+Proof.
+  intros Hfix s Hrec. unfold recover_history, run. rewrite fold_left_app.
+  (* after the partition phase: every summary Full, every planned data file Full *)
+  assert (G: forall js s0, recoverable s0 -> (forall j, In j js -> j < nparts) -> NoDup js ->
+            let s1 := fold_left (run1) (map (fun j => (Partition j (seq 0 (nfiles j)), None)) js) s0 in
+            recoverable s1 /\ (forall j, In j js -> s1 (PSummary j) = Full /\ part_complete s1 j) /\
+            (forall j, ~ In j js -> s1 (PSummary j) = s0 (PSummary j) /\ forall k, s1 (PData j k) = s0 (PData j k))).
+  { induction js as [|j js IH]; intros s0 Hr Hlt Hnd; simpl.
+    - split; auto. split; [intros j []|auto].
+    - inversion Hnd as [|? ? Hnin Hnd']; subst.
+      destruct (partition_complete_effect s0 j Hfix Hr (Hlt j (or_introl eq_refl))) as [Hr1 [Hs1 [Hc1 [Ho1 Hd1]]]].
+      destruct (IH _ Hr1 (fun i Hi => Hlt i (or_intror Hi)) Hnd') as [Hr2 [Hin2 Hout2]].
+      split; auto. split.
+      + intros i [Hi|Hi]; [subst i|apply Hin2; auto].
+        destruct (Hout2 j Hnin) as [E1 E2]. split; [rewrite E1; auto|]. intros k Hk. rewrite E2. apply Hc1; auto.
+      + intros i Hi. assert (i <> j) by (intros ->; apply Hi; left; auto).
+        destruct (Hout2 i (fun H' => Hi (or_intror H'))) as [E1 E2]. split; [rewrite E1; apply Ho1; auto|].
+        intros k. rewrite E2. apply Hd1; auto. }
+  destruct (G (seq 0 nparts) s Hrec (fun j Hj => proj2 (proj1 (in_seq _ _ _) Hj)) (seq_NoDup _ _)) as [[Hw [Hf [Hh [Hd Hs]]]] [Hin _]].
+  set (s1 := fold_left run1 (map (fun j => (Partition j (seq 0 (nfiles j)), None)) (seq 0 nparts)) s) in *.
+  simpl fold_left. unfold run1; simpl fst; simpl snd. unfold steps. rewrite Hw. cbn [is_full andb].
+  assert (summaries_full s1 = true) as ->.
+  { unfold summaries_full. apply forallb_forall. intros j Hj. destruct (Hin j Hj) as [E _]. now rewrite E. }
+  intros p. unfold write. rewrite exec_app. unfold exec at 2. simpl fold_left.
+  set (s2 := upd (upd s1 PFinalMeta Torn) PFinalMeta Full).
+  set (rm := PWipMeta :: map PSummary (seq 0 nparts)).
+  assert (Rm: forall q, In q rm -> exec s2 (map Unlink rm) q = Absent).
+  { clear. intros q. generalize s2. induction rm as [|r rm' IH]; intros t [];
+    unfold exec in *; simpl.
+    - subst. clear IH. assert (G: forall l t0, t0 q = Absent -> fold_left exec1 (map Unlink l) t0 q = Absent).
+      { induction l as [|x l IHl]; intros t0 H0; simpl; auto. apply IHl. unfold upd. destruct (path_eqb q x); auto. }
+      apply G. apply upd_same.
+    - apply IH; auto. }
+  assert (Fr: forall q, ~ In q rm -> exec s2 (map Unlink rm) q = s2 q).
+  { intros q Hq. apply frame. intros st Hst. apply in_map_iff in Hst. destruct Hst as [x [<- Hx]]. simpl. intros ->. auto. }
+  destruct p as [| | |j|j k]; unfold ref.
+  - rewrite Fr by (unfold rm; simpl; intros [E|E]; [discriminate|apply in_map_iff in E; destruct E as [? [? _]]; discriminate]).
+    unfold s2. rewrite !upd_other by congruence. auto.
+  - apply Rm. unfold rm. left. reflexivity.
+  - rewrite Fr by (unfold rm; simpl; intros [E|E]; [discriminate|apply in_map_iff in E; destruct E as [? [? _]]; discriminate]).
+    unfold s2. apply upd_same.
+  - destruct (Nat.lt_ge_cases j nparts) as [Hj|Hj].
+    + apply Rm. unfold rm. right. apply in_map. apply in_seq. lia.
+    + rewrite Fr.
+      * unfold s2. rewrite !upd_other by congruence. apply Hs; auto.
+      * unfold rm. simpl. intros [E|E]; [discriminate|]. apply in_map_iff in E. destruct E as [x [E Hx]]. inversion E; subst. apply in_seq in Hx. lia.
+  - rewrite Fr by (unfold rm; simpl; intros [E|E]; [discriminate|apply in_map_iff in E; destruct E as [? [? _]]; discriminate]).
+    unfold s2. rewrite !upd_other by congruence.
+    destruct (Nat.ltb_spec j nparts) as [Hj|Hj]; simpl.
+    + destruct (Nat.ltb_spec k (nfiles j)) as [Hk|Hk].
+      * destruct (Hin j ltac:(apply in_seq; lia)) as [_ Hc]. apply Hc; auto.
+      * apply Hd. lia.
+    + apply Hd. lia.
+Qed.
 End IcfProtocol.
 
 (* ---------- the pre-fix protocol is refuted by a concrete history (F6) ---------- *)
@@ -327,4 +441,5 @@ Proof. vm_compute. repeat split. Qed.
 Example F6_fixed : run 2 true empty hist_F6 (PData 1 0) = Full.
 Proof. vm_compute. reflexivity. Qed.
 Print Assumptions never_falsely_complete.
+Print Assumptions rerun_recovers.
 Print Assumptions icf_finalise_window_refuted.
